@@ -1185,6 +1185,13 @@ int safec_vsnprintf_s(out_fct_type out, const char *funcname, char *buffer,
                 if (*format) {
                     unsigned off = format - startformat;
                     char *s = (char *)malloc(off + 1);
+                    if (!s) {
+                        char msg[80];
+                        snprintf(msg, sizeof msg, "%s: malloc failed",
+                                 funcname);
+                        invoke_safe_str_constraint_handler(msg, buffer, 1);
+                        return -1;
+                    }
                     memcpy(s, startformat, off);
                     s[off] = '\0';
                     idx = safec_ftoa_long(out, funcname, buffer, idx, bufsize,
@@ -1218,6 +1225,13 @@ int safec_vsnprintf_s(out_fct_type out, const char *funcname, char *buffer,
                 if (*format) {
                     unsigned off = format - startformat;
                     char *s = (char *)malloc(off + 1);
+                    if (!s) {
+                        char msg[80];
+                        snprintf(msg, sizeof msg, "%s: malloc failed",
+                                 funcname);
+                        invoke_safe_str_constraint_handler(msg, buffer, 1);
+                        return -1;
+                    }
                     memcpy(s, startformat, off);
                     s[off] = '\0';
                     idx = safec_etoa_long(out, funcname, buffer, idx, bufsize,
@@ -1246,6 +1260,13 @@ int safec_vsnprintf_s(out_fct_type out, const char *funcname, char *buffer,
                 if (*format) {
                     unsigned off = format - startformat;
                     char *s = (char *)malloc(off + 1);
+                    if (!s) {
+                        char msg[80];
+                        snprintf(msg, sizeof msg, "%s: malloc failed",
+                                 funcname);
+                        invoke_safe_str_constraint_handler(msg, buffer, 1);
+                        return -1;
+                    }
                     memcpy(s, startformat, off);
                     s[off] = '\0';
                     idx = safec_atoa_long(out, funcname, buffer, idx, bufsize,
@@ -1263,6 +1284,13 @@ int safec_vsnprintf_s(out_fct_type out, const char *funcname, char *buffer,
                 if (*format) {
                     unsigned off = format - startformat;
                     char *s = (char *)malloc(off + 1);
+                    if (!s) {
+                        char msg[80];
+                        snprintf(msg, sizeof msg, "%s: malloc failed",
+                                 funcname);
+                        invoke_safe_str_constraint_handler(msg, buffer, 1);
+                        return -1;
+                    }
                     memcpy(s, startformat, off);
                     s[off] = '\0';
                     idx = safec_atoa(out, funcname, buffer, idx, bufsize,
